@@ -21,6 +21,23 @@ class PotsMonitor:
         self.prop = prop
         self.strength = strength
 
+    # what the log says about the chips (who put in what, who is live, who was pushed what) is part of the explored state:
+    # the verdict at the end is computed from it, so two histories whose engine fields coincide but whose logs tell
+    # different stories are judged separately instead of the first one standing in for both
+    @staticmethod
+    def _digest(st):
+        a = P.log_accounting(st)
+        return (tuple(a['in_pot']), tuple(a['live']), tuple(a['recv']), tuple(a['front']), a['pooled'], tuple(a['pulled']))
+
+    def init(self, st, ctx):
+        return self._digest(st)
+
+    def key(self, ms):
+        return ms
+
+    def on_edge(self, pre, ms, ev, post, rec, ctx):
+        return self._digest(post)
+
     def on_error(self, pre, ms, ev, exc, ctx):
         # a hand that cannot be completed cannot award its pots; histories with an explicit muck are the
         # known showdown-muck defects (C07 findings) and are not judged here
